@@ -1,5 +1,7 @@
 #!/opt/veriftools/pyvenv/bin/python
-import json, jsonschema, glob, sys
+import json, jsonschema, glob, sys, os
+sys.path.insert(0, os.path.dirname(os.path.abspath(__file__)))
+import vconfig  # every per-property configuration must load
 jsonschema.validate(json.load(open('/verif/MANIFEST.json')), json.load(open('/root/.vp/MANIFEST.schema.json')))
 es = json.load(open('/root/.vp/EVIDENCE.schema.json'))
 m = json.load(open('/verif/MANIFEST.json'))
